@@ -27,11 +27,18 @@ pub struct Case {
     /// hooks: (mnemonic index into c12::MNEMS, after?, outcome, modify)
     pub hooks: Vec<(usize, bool, Outcome, Option<(u8, u64)>)>,
     pub cross_process: bool,
+    /// explicitly written XMM registers (bit i = XMM i)
+    #[serde(default)]
+    pub xmm_written: u32,
+    /// Some: the program is loaded from a generated ELF with these (slot, name) symbols (aliases included)
+    #[serde(default)]
+    pub elf_syms: Option<Vec<(usize, String)>>,
 }
 
 pub struct C20;
 
-/// Registers (bitmask, encoding order) that some instruction of the program reads, incl. implicit ones.
+/// Registers that some instruction of the program reads, incl. implicit ones: bits 0–15 GPRs
+/// (encoding order), bits 16–31 XMM0–15.
 fn static_read_set(img: &[u8]) -> u32 {
     let mut f = InstructionInfoFactory::new();
     let mut d = Decoder::with_ip(64, img, BASE, DecoderOptions::NONE);
@@ -43,6 +50,12 @@ fn static_read_set(img: &[u8]) -> u32 {
         }
         for ur in f.info(&i).used_registers() {
             let r = ur.register();
+            if r.is_xmm() {
+                if !matches!(ur.access(), OpAccess::Write) {
+                    m |= 1 << (16 + r.number());
+                }
+                continue;
+            }
             if !r.is_gpr() {
                 continue;
             }
@@ -64,10 +77,29 @@ pub struct RunResult {
 /// Run the case on a freshly constructed machine and digest everything the property lists.
 pub fn run_once(c: &Case) -> Result<RunResult, String> {
     let img = prog::assemble(&c.prog, BASE);
-    let mut ax = Axecutor::new(&img, BASE, BASE).map_err(|e| e.to_string())?;
+    let mut sym_addrs: Vec<u64> = vec![];
+    let mut ax = match &c.elf_syms {
+        None => Axecutor::new(&img, BASE, BASE).map_err(|e| e.to_string())?,
+        Some(syms) => {
+            use crate::elfb::{build, ElfDesc, Seg, Sym};
+            let d = ElfDesc {
+                entry: BASE,
+                segs: vec![Seg { p_type: 1, flags: 5, vaddr: BASE, filesz: img.len() as u64, memsz: img.len() as u64, seed: 0 }],
+                syms: Some(syms.iter().map(|(slot, name)| Sym { name: Some(name.clone()), value: prog::slot_addr(BASE, *slot), defined: true }).collect()),
+                with_shdrs: true,
+            };
+            sym_addrs = syms.iter().map(|(slot, _)| prog::slot_addr(BASE, *slot)).collect();
+            let (mut file, lay) = build(&d);
+            file[lay.seg_offsets[0]..lay.seg_offsets[0] + img.len()].copy_from_slice(&img);
+            Axecutor::from_binary(&file).map_err(|e| e.to_string())?
+        }
+    };
     for i in 0..16 {
         if c.written >> i & 1 == 1 {
             ax.reg_write_64(GPR[i], crate::util::mix2(c.seed, i as u64)).map_err(|e| e.to_string())?;
+        }
+        if c.xmm_written >> i & 1 == 1 {
+            ax.reg_write_128(crate::mach::SRXMM[i], (crate::util::mix2(c.seed, 64 + i as u64) as u128) << 64 | crate::util::mix2(c.seed, 96 + i as u64) as u128).map_err(|e| e.to_string())?;
         }
     }
     ax.verif_set_rflags(c.flags);
@@ -85,7 +117,7 @@ pub fn run_once(c: &Case) -> Result<RunResult, String> {
         r.map_err(|e| e.to_string())?;
     }
     // defined set: explicitly written ∪ RSP ∪ registers fully written by executed instructions
-    let mut defined = c.written | (1 << 4);
+    let mut defined = (c.written & 0xffff) | (1 << 4) | (c.xmm_written & 0xffff) << 16;
     let mut f = InstructionInfoFactory::new();
     let code_end = BASE + img.len() as u64;
     let mut result = String::new();
@@ -104,6 +136,9 @@ pub fn run_once(c: &Case) -> Result<RunResult, String> {
                         let r = ur.register();
                         if r.is_gpr() && matches!(ur.access(), OpAccess::Write) && (r.is_gpr64() || r.is_gpr32()) {
                             defined |= 1 << r.full_register().number();
+                        }
+                        if r.is_xmm() && matches!(ur.access(), OpAccess::Write) {
+                            defined |= 1 << (16 + r.number());
                         }
                     }
                 }
@@ -139,6 +174,22 @@ pub fn run_once(c: &Case) -> Result<RunResult, String> {
             h.u64(i as u64).u64(v);
             text.push_str(&format!("{}={:#x} ", crate::mach::GPR_NAMES[i], v));
         }
+    }
+    for i in 0..16 {
+        if defined >> (16 + i) & 1 == 1 {
+            let v = ax.reg_read_128(crate::mach::SRXMM[i]).unwrap();
+            h.u64(100 + i as u64).u64(v as u64).u64((v >> 64) as u64);
+            text.push_str(&format!("xmm{}={:#x} ", i, v));
+        }
+    }
+    // rendered trace / call stack (they embed symbol names) and symbol resolution
+    let ttxt = ax.trace().unwrap_or_else(|e| format!("ERR {}", e));
+    let ctxt = ax.call_stack().unwrap_or_else(|e| format!("ERR {}", e));
+    h.str(&ttxt).str(&ctxt);
+    for a in &sym_addrs {
+        let n = ax.resolve_symbol(*a).unwrap_or_default();
+        h.u64(*a).str(&n);
+        text.push_str(&format!("sym@{:#x}={} ", a, n));
     }
     let rip = ax.reg_read_64(SR::RIP).unwrap();
     let fl = ax.verif_rflags();
@@ -213,6 +264,7 @@ impl Property for C20 {
         let cross_process = t.below(16) == 0;
         let mut o = prog::ProgOpts::straight();
         o.w = [6, 12, 12, 8, 6, 10, 6, 4, 2, 6, 3, 5, 4, 4, 0, 1];
+        o.w_extra = [4, 0, 0, 14];
         let mut p = vec![];
         for (i, row) in tape.iter().skip(1).enumerate() {
             let mut t = Tape::new(row);
@@ -232,7 +284,23 @@ impl Property for C20 {
         let img = prog::assemble(&p, BASE);
         let reads = static_read_set(&img);
         let written = (reads | (extra & if t.bool() { 0xffff } else { 0 })) & 0xffff;
-        Case { prog: p, written, seed, flags, fs, gs, limit, hooks, cross_process }
+        let xmm_written = (reads >> 16) | (t.raw() as u32 & if t.bool() { 0xff } else { 0 });
+        let elf_syms = if t.below(3) == 0 {
+            // symbols on slots, with aliases (two names on one address) and one on the entry
+            let ns = 1 + t.below(6) as usize;
+            let mut v: Vec<(usize, String)> = vec![];
+            for k in 0..ns {
+                let slot = if k > 0 && t.below(3) == 0 { v[t.below(v.len() as u64) as usize].0 } else { t.below(n as u64) as usize };
+                v.push((slot, format!("sym{}_{}", k, t.below(100))));
+            }
+            Some(v)
+        } else {
+            None
+        };
+        // an ELF segment is padded with zero bytes up to its page end, and 00 00 is `add [rax],al`: a program
+        // that runs off its end reads RAX
+        let written = if elf_syms.is_some() { written | 1 } else { written };
+        Case { prog: p, written, seed, flags, fs, gs, limit, hooks, cross_process, xmm_written, elf_syms }
     }
 
     fn exec(&mut self, c: &Case) -> CaseOut {
@@ -250,6 +318,12 @@ impl Property for C20 {
         out = out.class(if a.text.contains("result=Err") { "ends-in-error" } else { "finishes" });
         if !c.hooks.is_empty() {
             out = out.class("with-hooks");
+        }
+        if c.elf_syms.is_some() {
+            out = out.class("elf-with-symbol-aliases");
+        }
+        if c.prog.iter().any(|p| matches!(p, PI::Xmm { .. })) {
+            out = out.class("uses-xmm");
         }
         if a.text.contains("PANIC") {
             out.verdict = Verdict::Fail { sig: "C20|panic".into(), msg: a.text.clone() };
@@ -298,12 +372,12 @@ impl Property for C20 {
     }
 
     fn rule(&self) -> String {
-        "cases: slot-grid programs of 2–20 instructions (all generated instruction kinds incl. stack, calls, register-indirect transfers) where every register any instruction may read (iced used_registers incl. implicit and partial-width destinations) is written explicitly and the others keep the constructor's random fill; explicit flags, FS/GS, a data area, a stack; 0–3 identical scripted hooks; oracle: two independently constructed machines in one process — and for 1/16 of the cases a separately exec'd process (fresh ASLR and hash seeds) — must agree on a digest of defined registers, flags, FS/GS, every area byte, executed count, structured trace, call stack, result and full error text, and hook events; non-trivial = ≥1 register left random and ≥2 instructions; distinct by hash(case)".into()
+        "cases: slot-grid programs of 2–20 instructions (all generated instruction kinds incl. stack, calls, register-indirect transfers) where every register any instruction may read (iced used_registers incl. implicit and partial-width destinations) is written explicitly and the others keep the constructor's random fill; explicit flags, FS/GS, a data area, a stack; XMM moves/xor/load/store incl. both MOVUPS register encodings; 1/3 of the programs loaded from a generated ELF whose symbol table has aliases (two names on one address); 0–3 identical scripted hooks; oracle: two independently constructed machines in one process — and for 1/16 of the cases a separately exec'd process (fresh ASLR and hash seeds) — must agree on a digest of defined registers, flags, FS/GS, every area byte, executed count, structured trace, call stack, rendered trace()/call_stack() text, resolve_symbol of every symbol address, result and full error text, and hook events; non-trivial = ≥1 register left random and ≥2 instructions; distinct by hash(case)".into()
     }
     fn required_classes(&self, _tier: Tier) -> Vec<String> {
-        ["ends-in-error", "finishes", "with-hooks", "cross-process"].iter().map(|s| s.to_string()).collect()
+        ["ends-in-error", "finishes", "with-hooks", "cross-process", "elf-with-symbol-aliases", "uses-xmm"].iter().map(|s| s.to_string()).collect()
     }
     fn assumptions(&self) -> Vec<String> {
-        vec!["the defined set (explicitly written ∪ fully written by an executed instruction or a hook) is what is compared; XMM registers are not used by the generated programs and are not compared".into(), "pipe descriptor numbers do not occur (no pipe handler in these programs)".into()]
+        vec!["the defined set (explicitly written ∪ fully written by an executed instruction or a hook; GPRs and XMM) is what is compared".into(), "pipe descriptor numbers do not occur (no pipe handler in these programs)".into()]
     }
 }
